@@ -10,18 +10,24 @@
 (*  C12: unordered pairs of writer configurations                           *)
 (***************************************************************************)
 EXTENDS Integers, Sequences, FiniteSets, TLC, Json
-CONSTANTS Family, MaxCurves, NPres, NItems, MaxList, Emit
+CONSTANTS Family, MaxCurves, NPres, NItems, MaxList, Emit, TallRows
 VARIABLES inst, stage
 
 Masks == {"none", "one", "row", "col", "all", "checker"}
 Coarse ==
     CASE Family = "C01" -> {<<c, r>> : c \in 1..MaxCurves, r \in {1, 2, 3, 22, 101}}
+                           \* tall blocks: row counts at and around the block sizes a buffered writer or reader might use,
+                           \* with 1, 3 and 7 lines per depth step when wrapped
+                           \cup {<<c, r>> : c \in {2, 16, 37}, r \in TallRows}
       [] Family = "C03" -> {<<sec, v, case>> : sec \in {"Version", "Well", "Curves", "Parameter"}, v \in {"1.2", "2.0"},
                                               case \in {"preserve", "upper", "lower"}}
       [] Family = "C12" -> {<<a>> : a \in 1..NPres}
 Lists == UNION {[1..n -> 1..NItems] : n \in 0..MaxList}
 Fine(a) ==
-    CASE Family = "C01" ->
+    CASE Family = "C01" /\ a[2] > 101 ->
+           {[ncurves |-> a[1], nrows |-> a[2], version |-> v, wrap |-> w, engine |-> e, mh |-> FALSE, mask |-> "checker", pres |-> 1] :
+               v \in {"1.2", "2.0"}, w \in BOOLEAN, e \in {"numpy", "normal"}}
+      [] Family = "C01" ->
            {[ncurves |-> a[1], nrows |-> a[2], version |-> v, wrap |-> w, engine |-> e, mh |-> mh, mask |-> m, pres |-> p] :
                v \in {"1.2", "2.0"}, w \in BOOLEAN, e \in {"numpy", "normal"}, mh \in BOOLEAN, m \in Masks, p \in 1..NPres}
       [] Family = "C03" -> {[sec |-> a[1], version |-> a[2], case |-> a[3], items |-> l] : l \in Lists}
